@@ -607,6 +607,55 @@ def two_senders(res, rng, tier, schedule=None):
     return fails
 
 
+def mqtt_pump(res):
+    """The pump of the thread-based MQTT gateway (the real poll loop on a real thread) with a publish callback
+    that fails in every way a client library does: every queued command reaches the callback once, in queue
+    order, and the loop is still running afterwards."""
+    import time as real_time
+    from mysensors.gateway_mqtt import MQTTGateway
+    from .c17 import UserError
+    kinds = [lambda: RuntimeError("client is not connected"), TimeoutError, lambda: ValueError(7), ConnectionError,
+             lambda: OSError(5, "Input/output error"), lambda: KeyError("mid"), UserError, lambda: Exception(),
+             lambda: UnicodeEncodeError("utf-8", "x", 0, 1, "surrogates not allowed"), AssertionError,
+             lambda: AttributeError("'NoneType' object has no attribute 'publish'"), lambda: LookupError("no route")]
+    seen, died = [], []
+
+    def pub(topic, payload, qos, retain):
+        seen.append(topic)
+        if len(seen) % 2:
+            raise kinds[(len(seen) // 2) % len(kinds)]()
+    gw = MQTTGateway(pub, lambda *a: None, protocol_version="2.2")
+    cmds = [f"{n};1;1;0;2;{n % 2}\n" for n in range(1, 25)]
+    for c in cmds:
+        gw.tasks.add_job(str, c)
+
+    def loop():
+        try:
+            gw.tasks._poll_queue()
+        except BaseException as exc:  # noqa: BLE001
+            died.append(f"{type(exc).__name__}: {exc}")
+    th = threading.Thread(target=loop, daemon=True)
+    th.start()
+    deadline = real_time.time() + 5.0
+    while real_time.time() < deadline and th.is_alive() and (gw.tasks.queue or len(seen) < len(cmds)):
+        real_time.sleep(0.01)
+    alive = th.is_alive()
+    gw.tasks._stop_event.set()
+    th.join(2.0)
+    res.evaluations += 1
+    res.count("mqtt-pump")
+    want = [f"/{n}/1/1/0/2" for n in range(1, 25)]
+    bad = None
+    if died or not alive:
+        bad = f"the poll loop ended ({died[0] if died else 'returned'}) after {len(seen)} of {len(cmds)} commands"
+    elif seen != want:
+        bad = f"the callback saw {len(seen)} publishes, first difference at {next((i for i, (a, b) in enumerate(zip(seen, want)) if a != b), min(len(seen), len(want)))}"
+    if bad:
+        return [{"key": {"kind": "mqtt-pump"}, "replay": {"op": "mqtt-pump"},
+                 "what": f"thread-based MQTT gateway, publish callback raising every other time (twelve kinds of exception): {bad}"}]
+    return []
+
+
 def tcp_write_vs_disconnect(res, rng, tier):
     """Transport.send over the real TCPTransport while the user disconnects: the operating system takes the
     command in two pieces (a scheduling point in between); the peer must see the whole command or nothing."""
@@ -711,10 +760,35 @@ class IDeque(collections.deque):
     ctx = None
     order = None
 
+    argless_tag = "?"
+
+    def _tag(self, item):
+        return item[1][0] if item[1] else self.argless_tag
+
     def append(self, item):
         self.ctx.point("append")
-        self.order.append(item[1][0])
+        self.order.append(self._tag(item))
         super().append(item)
+
+    # putting something in at the other end, or in the middle, is an access like any other; `order` keeps the
+    # order of the calls (what "queue order" means for commands queued from several threads)
+    def appendleft(self, item):
+        self.ctx.point("appendleft")
+        self.order.append(self._tag(item))
+        super().appendleft(item)
+
+    def insert(self, index, item):
+        self.ctx.point("insert")
+        self.order.append(self._tag(item))
+        super().insert(index, item)
+
+    def extend(self, items):
+        for item in items:
+            self.append(item)
+
+    def extendleft(self, items):
+        for item in items:
+            self.appendleft(item)
 
     def popleft(self):
         self.ctx.point("pop")
@@ -810,9 +884,10 @@ def coop_event_class(ctx, points=True):
     return CoopEvent
 
 
-def queue_run(counts, sched, with_stop=False, drain=False):
+def queue_run(counts, sched, with_stop=False, drain=False, keepalive=False):
     """counts: jobs per producer; sched: list of 'u' (pump), producer index, or 's' (the thread calling
-    stop(), only with_stop)."""
+    stop(), only with_stop).  keepalive: the gateway is a TCP gateway and the last producer is its reader
+    thread, whose one job is the version request check_connection() queues when the keep-alive is due."""
     import mysensors.task as task_mod
     from mysensors.gateway_serial import SerialGateway
     ctx = Ctx(timeout=0.4 if with_stop else 10.0)
@@ -835,10 +910,20 @@ def queue_run(counts, sched, with_stop=False, drain=False):
             return getattr(real_threading, name)
     task_mod.threading = Proxy()
     try:
-        gw = SerialGateway("/dev/verif-none")
+        if keepalive:
+            import mysensors.gateway_tcp as tcp_mod
+            gw = tcp_mod.TCPGateway("127.0.0.1", 5003)
+        else:
+            gw = SerialGateway("/dev/verif-none")
     except BaseException:
         task_mod.threading = real_threading
         raise
+    real_tcp_time = None
+    if keepalive:
+        # the keep-alive is due (more than reconnect_timeout since the last one), the link is not given up yet
+        due = gw.tcp_check_timer + float(gw.tasks.transport.reconnect_timeout) + 1.0
+        real_tcp_time = tcp_mod.time
+        tcp_mod.time = types.SimpleNamespace(time=lambda: due, sleep=lambda _s: None)
     conn = PlainConn()
     if with_stop:
         conn.ctx = ctx
@@ -848,6 +933,7 @@ def queue_run(counts, sched, with_stop=False, drain=False):
     dq = IDeque(collections.deque.__iter__(own), getattr(own, "maxlen", None)) if isinstance(own, collections.deque) else IDeque()
     dq.ctx = ctx
     dq.order = []
+    dq.argless_tag = f"{len(counts) - 1}.0"
     gw.tasks.queue = dq
     old_time = getattr(task_mod, "time", None)
     if old_time is not None:
@@ -855,6 +941,9 @@ def queue_run(counts, sched, with_stop=False, drain=False):
     try:
         def producer(i):
             def body():
+                if keepalive and i == len(counts) - 1:
+                    gw.check_connection()
+                    return
                 for k in range(counts[i]):
                     gw.tasks.add_job(lambda tag: tag + "\n", f"{i}.{k}")
             return body
@@ -896,8 +985,8 @@ def queue_run(counts, sched, with_stop=False, drain=False):
                     break
                 ctx.coop.resume(pump)
                 executed.append("u")
-        sent = [w.strip() for w in conn.writes]
-        queued = [item[1][0] for item in collections.deque.__iter__(dq)]
+        sent = [dq.argless_tag if keepalive and w.strip() == "0;255;3;0;2;" else w.strip() for w in conn.writes]
+        queued = [dq._tag(item) for item in collections.deque.__iter__(dq)]
         tag = pump.tag if not pump.done else "done"
         return {"sent": sent, "queue": queued, "order": list(dq.order), "pump": tag, "executed": executed,
                 "producers_done": all(th.done for th in prods),
@@ -907,6 +996,8 @@ def queue_run(counts, sched, with_stop=False, drain=False):
     finally:
         if old_time is not None:
             task_mod.time = old_time
+        if real_tcp_time is not None:
+            tcp_mod.time = real_tcp_time
         task_mod.threading = real_threading
         ctx.coop.shutdown()
 
@@ -1127,6 +1218,8 @@ def run(tier, seed, driver):
         res.oracle_failures.append(bad)
     for bad in two_senders(res, rng, tier):
         res.oracle_failures.append(bad)
+    for bad in mqtt_pump(res):
+        res.oracle_failures.append(bad)
 
     # (c'') the real connection objects honour the contract the fakes stand for: write() on a usable
     # connection hands over the whole command, on a dead one it raises an OSError (which send() absorbs)
@@ -1159,8 +1252,13 @@ def run(tier, seed, driver):
     hung = 0
     for qi, (cnts, sched) in enumerate(qcases):
         drained = qi % 3 == 0
+        # every fifth case: a TCP gateway whose reader thread finds the keep-alive due (one more producer with
+        # one job, the version request); its turns replace those of the last producer
+        keepalive = qi % 5 == 4 and len(cnts) >= 2
+        if keepalive:
+            cnts = tuple(cnts[:-1]) + (1,)
         try:
-            r = queue_run(list(cnts), sched, drain=drained)
+            r = queue_run(list(cnts), sched, drain=drained, keepalive=keepalive)
             before, sched = sched, r["executed"]
         except HarnessHang as exc:
             # a thread stopped moving somewhere that is not one of the instrumented accesses (it waits on
@@ -1169,7 +1267,8 @@ def run(tier, seed, driver):
             res.oracle_failures.append({
                 "key": {"kind": "queue-thread-blocked"},
                 "what": f"a pump / producer thread blocked for good on the schedule {sched} with jobs {cnts}: {exc}",
-                "replay": {"op": "queue", "counts": list(cnts), "schedule": sched, "drained": drained}})
+                "replay": {"op": "queue", "counts": list(cnts), "schedule": sched, "drained": drained,
+                           "keepalive": keepalive}})
             if hung >= 3:
                 break
             continue
@@ -1186,7 +1285,7 @@ def run(tier, seed, driver):
         if bad:
             res.oracle_failures.append({"key": {"kind": "queue-" + bad[0]}, "what": bad[1],
                                         "replay": {"op": "queue", "counts": list(cnts), "schedule": before,
-                                                   "drained": drained}})
+                                                   "drained": drained, "keepalive": keepalive}})
     # (d') the same queue with a user thread calling stop() somewhere in the schedule (oracle only)
     scases = []
     for cnts in [(3,), (2, 1)]:
@@ -1287,6 +1386,10 @@ def replay(payload):
         print(res.histogram)
         print("oracle:", bad[:1])
         return 1 if bad else 0
+    if r.get("op") == "mqtt-pump":
+        bad = mqtt_pump(Result())
+        print("oracle:", bad[:1])
+        return 1 if bad else 0
     if r.get("op") == "two-senders":
         res = Result()
         bad = two_senders(res, random.Random(16), "quick")
@@ -1336,7 +1439,7 @@ def replay(payload):
         return 1 if bad else 0
     elif r.get("op") == "queue":
         try:
-            out = queue_run(r["counts"], r["schedule"], drain=bool(r.get("drained")))
+            out = queue_run(r["counts"], r["schedule"], drain=bool(r.get("drained")), keepalive=bool(r.get("keepalive")))
         except HarnessHang as exc:
             print("a thread blocked for good:", exc)
             return 1
